@@ -1,1 +1,329 @@
-/-! # C18 — property theorems (stub: not built yet) -/
+import KM.Lemmas.Html
+import KM.Gen.C18
+/-! # C18 — request-controlled text is never rendered as markup
+
+Property theorems only.  `esc`/`escT` mirror Go's `html.EscapeString` /
+`template.HTMLEscapeString`, `unescape` decodes the five references they emit,
+`tokenizeStartTag` is the WHATWG start-tag tokenizer (after newline normalisation),
+`loginInput` is the raw `<INPUT … VALUE="…">` field the login and 2FA pages inject as
+`template.HTML`.  The tables `KM.Gen.*` are regenerated from cmd/keymasterd on every run.
+
+Ordinary `{{.Field}}` interpolations rely on html/template's contextual auto-escaping, which is
+trusted base (exercised by the harness); what is proved here is everything that *bypasses* it. -/
+namespace KM.Html
+
+/-! ## the escapers -/
+
+theorem escWith_inert (fn : EscFn) (s : List Char) :
+    '"' ∉ escWith fn s ∧ '<' ∉ escWith fn s ∧ '>' ∉ escWith fn s ∧ '\'' ∉ escWith fn s := by
+  have key : ∀ x : List Char, '"' ∉ esc x ∧ '<' ∉ esc x ∧ '>' ∉ esc x ∧ '\'' ∉ esc x := fun x =>
+    ⟨fun h => (esc_inert x _ h).1 rfl, fun h => (esc_inert x _ h).2.1 rfl,
+     fun h => (esc_inert x _ h).2.2.1 rfl, fun h => (esc_inert x _ h).2.2.2 rfl⟩
+  cases fn
+  · exact key s
+  · exact key _
+
+/-- **Escaping is inert**: for every string, the output of `html.EscapeString` contains no
+double quote, no angle bracket and no single quote — nothing that can end an attribute value or
+open a tag. -/
+theorem c18_esc_inert (s : List Char) :
+    '"' ∉ esc s ∧ '<' ∉ esc s ∧ '>' ∉ esc s ∧ '\'' ∉ esc s :=
+  escWith_inert .htmlEscapeString s
+
+/-- the same for `html/template.HTMLEscapeString` -/
+theorem c18_escT_inert (s : List Char) :
+    '"' ∉ escT s ∧ '<' ∉ escT s ∧ '>' ∉ escT s ∧ '\'' ∉ escT s :=
+  escWith_inert .templateHTMLEscapeString s
+
+/-- **Round trip**: decoding the five references gives the original text back, for every
+string — including text that already looks like a reference (`&amp;` escapes to `&amp;amp;`
+and decodes to `&amp;`; see the `example` below).  The converse (`esc (unescape s) = s`) is
+false and not needed. -/
+theorem c18_esc_roundtrip (s : List Char) : unescape (esc s) = s := unescape_esc s
+
+/-- `HTMLEscapeString` round-trips up to its own NUL ↦ U+FFFD replacement -/
+theorem c18_escT_roundtrip (s : List Char) : unescape (escT s) = s.map nulRepl :=
+  unescape_esc _
+
+theorem escWith_roundtrip (fn : EscFn) (s : List Char) :
+    unescape (escWith fn s) = preEsc fn s := by
+  cases fn
+  · exact unescape_esc s
+  · exact unescape_esc _
+
+example : esc "&amp;\"<x>'".toList = "&amp;amp;&#34;&lt;x&gt;&#39;".toList := by decide
+example : unescape "&amp;amp;&#34;&lt;x&gt;&#39;".toList = "&amp;\"<x>'".toList := by decide
+/-- the converse direction really fails -/
+example : esc (unescape "&quot;&amp;".toList) ≠ "&quot;&amp;".toList := by decide
+
+/-! ## the double-quoted attribute value state -/
+
+/-- **A quote-free string cannot leave a double-quoted attribute value**: in that tokenizer
+state, whatever quote-free text `v` is read, the tokenizer continues on the following input
+`t` in the same state with `v` added to the current attribute's value — `v` contributes no
+attribute boundary, no tag end and no new tag. -/
+theorem c18_dq_inert (s : St) (hm : s.mode = .valueDQ) (v t : List Char) (hv : '"' ∉ v) :
+    run s (v ++ t) = run (s.addValues v) t ∧ (s.addValues v).mode = .valueDQ ∧
+      eraseSt (s.addValues v) = eraseSt s :=
+  ⟨run_dq s hm v t hv, (addValues_mode s v).trans hm, eraseSt_addValues s v⟩
+
+/-! ## the login-destination field -/
+
+/-- tokenizer state after the constant text in front of the destination -/
+def stAfterInputPrefix : St :=
+  ⟨.valueDQ, "tupni".toList,
+   [⟨"eulav".toList, []⟩, ⟨"eman".toList, "noitanitsed_nigol".toList⟩,
+    ⟨"di".toList, "tupni_noitanitsed_nigol".toList⟩, ⟨"epyt".toList, "neddih".toList⟩]⟩
+
+theorem stateAfter_inputPrefix : stateAfter inputPrefix = some stAfterInputPrefix := by decide
+
+/-- any quote-free raw text `v` between the constant parts tokenizes to exactly the hidden
+input, with `v` (as the browser reads it) as value and nothing left over -/
+theorem inputTag_tokenize (v : List Char) (hv : '"' ∉ v) :
+    tokenizeStartTag (inputTag v) = some (loginTag ((normNewlines v).map nulRepl), []) := by
+  unfold tokenizeStartTag normNewlines inputTag
+  have hp : noNl inputPrefix = true := by decide
+  have hq : noNl inputSuffix = true := by decide
+  rw [List.append_assoc, nn_noNl_append _ _ hp, nn_append_noNl false v _ hq,
+    tokenizeRaw_append _ stateAfter_inputPrefix,
+    run_dq _ rfl _ _ (nn_quote_free hv),
+    addValues_attrs stAfterInputPrefix _ _ _ rfl]
+  simp [inputSuffix, run, step, St.to, stepBeforeName, finish, unrev, loginTag, stAfterInputPrefix,
+    isWs]
+
+theorem tokenizeInput_of_tag (l v rest : List Char)
+    (h : tokenizeStartTag l = some (loginTag v, rest)) : tokenizeInput l = some (v, rest) := by
+  unfold tokenizeInput
+  rw [h]
+  simp [loginTag]
+
+/-- **The INPUT built from any destination is one inert tag.**  For every destination string
+`dest`, every URL normalisation `norm` (what `ensureHTMLSafeLoginDestination` does is a
+parameter: the statement holds whatever it returns) and either escaper, the field
+`<INPUT TYPE="hidden" id=… NAME="login_destination" VALUE="` ++ escaped ++ `">` is read by an
+HTML5 tokenizer as exactly one start tag `input` with exactly the four attributes
+`type, id, name, value` carrying the three constant values, **nothing is left over after the
+tag**, and the value decodes to the destination as a browser sees it.  No attribute boundary
+and no element can originate from `dest`. -/
+theorem c18_input (fn : EscFn) (norm : List Char → List Char) (dest : List Char) :
+    ∃ v, tokenizeStartTag (loginInput fn norm dest) = some (loginTag v, []) ∧
+      tokenizeInput (loginInput fn norm dest) = some (v, []) ∧
+      unescape v = browserView (preEsc fn (norm dest)) := by
+  have hq := (escWith_inert fn (norm dest)).1
+  have ht := inputTag_tokenize _ hq
+  refine ⟨_, ht, tokenizeInput_of_tag _ _ _ ht, ?_⟩
+  have he : escWith fn (norm dest) = esc (preEsc fn (norm dest)) := by cases fn <;> rfl
+  unfold browserView normNewlines
+  rw [he, nn_esc, map_nulRepl_esc, unescape_esc]
+
+/-- the predicate the judge evaluates on every field the real handlers emitted -/
+theorem c18_input_ok (fn : EscFn) (norm : List Char → List Char) (dest : List Char) :
+    inputOK (loginInput fn norm dest) (preEsc fn (norm dest)) = true := by
+  obtain ⟨v, _, h2, h3⟩ := c18_input fn norm dest
+  unfold inputOK
+  rw [h2]
+  simp [h3]
+
+/-- **Exact round trip**: when the normalised destination contains neither CR nor NUL (both are
+rejected by `url.Parse` and by the destination filter of C17), the browser submits back exactly
+the string the server put in — with `html.EscapeString` as the escaper. -/
+theorem c18_input_exact (norm : List Char → List Char) (dest : List Char)
+    (h1 : '\r' ∉ norm dest) (h2 : '\x00' ∉ norm dest) :
+    ∃ v, tokenizeInput (loginInput .htmlEscapeString norm dest) = some (v, []) ∧
+      unescape v = norm dest := by
+  obtain ⟨v, _, hv, hu⟩ := c18_input .htmlEscapeString norm dest
+  exact ⟨v, hv, by rw [hu]; exact browserView_id _ h1 h2⟩
+
+/-- non-vacuity / sanity: a hostile destination, as the repaired code renders it -/
+example :
+    tokenizeInput (loginInput .htmlEscapeString id "/x?a=\"><script>alert(1)</script>".toList) =
+      some ("/x?a=&#34;&gt;&lt;script&gt;alert(1)&lt;/script&gt;".toList, []) := by decide
+example : inputOK (loginInput .htmlEscapeString id "/x?a=\"><script>alert(1)</script>".toList)
+    "/x?a=\"><script>alert(1)</script>".toList = true := by decide
+
+/-- **The pinned tree was not safe**: without escaping, the query part of a destination that
+passes every filter (`/x?a="><script>alert(1)</script>`, kept verbatim by
+`url.Parse(..).String()`) ends the VALUE attribute and the tag, and an element follows; a
+second input shows injected attributes (`onfocus`, `autofocus`) inside the tag itself. -/
+theorem c18_unfixed_counterexample :
+    tokenizeStartTag (loginInputOld id "/x?a=\"><script>alert(1)</script>".toList) =
+      some (loginTag "/x?a=".toList, "<script>alert(1)</script>\">".toList) ∧
+    tokenizeRaw "<script>alert(1)</script>\">".toList =
+      some (⟨"script".toList, [], false⟩, "alert(1)</script>\">".toList) ∧
+    inputOK (loginInputOld id "/x?a=\"><script>alert(1)</script>".toList)
+      "/x?a=\"><script>alert(1)</script>".toList = false ∧
+    (tokenizeStartTag (loginInputOld id "/x?a=\" onfocus=\"alert(1)\" autofocus=\"".toList)).map
+        (fun p => p.1.attrs.map (·.name)) =
+      some ["type".toList, "id".toList, "name".toList, "value".toList, "onfocus".toList,
+        "autofocus".toList] := by
+  decide
+
+/-! ## base64 -/
+
+theorem b64char_mem (n : Nat) : b64char n ∈ b64alphabet ∨ b64char n = '=' := by
+  unfold b64char
+  rw [List.getD_eq_getElem?_getD]
+  cases h : b64alphabet[n]? with
+  | none => right; rfl
+  | some c => left; exact List.mem_of_getElem? h
+
+/-- **base64 is inert**: for every byte string, `base64.StdEncoding.EncodeToString` emits only
+letters, digits, `+`, `/` and `=` — no quote, angle bracket or ampersand. -/
+theorem c18_base64_inert (bs : List UInt8) :
+    ∀ c ∈ b64 bs, c ≠ '"' ∧ c ≠ '<' ∧ c ≠ '>' ∧ c ≠ '&' ∧ c ≠ '\'' := by
+  have hal : ∀ c, (c ∈ b64alphabet ∨ c = '=') → c ≠ '"' ∧ c ≠ '<' ∧ c ≠ '>' ∧ c ≠ '&' ∧ c ≠ '\'' := by
+    intro c hc
+    rcases hc with hc | hc
+    · refine ⟨?_, ?_, ?_, ?_, ?_⟩ <;> (intro e; subst e; revert hc; decide)
+    · subst hc; decide
+  induction bs using b64.induct with
+  | case1 => intro c hc; cases hc
+  | case2 a =>
+    intro c hc
+    simp only [b64, List.mem_cons, List.not_mem_nil, or_false] at hc
+    rcases hc with h | h | h | h <;> subst h
+    · exact hal _ (b64char_mem _)
+    · exact hal _ (b64char_mem _)
+    · decide
+    · decide
+  | case3 a b =>
+    intro c hc
+    simp only [b64, List.mem_cons, List.not_mem_nil, or_false] at hc
+    rcases hc with h | h | h | h <;> subst h
+    · exact hal _ (b64char_mem _)
+    · exact hal _ (b64char_mem _)
+    · exact hal _ (b64char_mem _)
+    · decide
+  | case4 a b c' rest ih =>
+    intro c hc
+    simp only [b64, List.mem_cons] at hc
+    rcases hc with h | h | h | h | h
+    · subst h; exact hal _ (b64char_mem _)
+    · subst h; exact hal _ (b64char_mem _)
+    · subst h; exact hal _ (b64char_mem _)
+    · subst h; exact hal _ (b64char_mem _)
+    · exact ih c h
+
+example : b64 [0x4d, 0x61, 0x6e, 0x4d] = "TWFuTQ==".toList := by decide
+
+/-! ## every raw-HTML conversion of the current source tree (regenerated tables) -/
+
+/-- what a dynamic operand of a given class can evaluate to -/
+def operandValue : Operand → List Char → Prop
+  | .escaped fn, v => ∃ x, v = escWith fn x
+  | .base64Std, v => ∃ bs, v = b64 bs
+  | _, _ => False
+
+def operandInert : Operand → Bool
+  | .escaped _ | .base64Std => true
+  | _ => false
+
+/-- a conversion site is acceptable when it is `template.HTML(constant + operand + constant)`,
+the operand is escaped or base64, the first constant leaves the tokenizer inside a
+double-quoted attribute value and the constants alone form exactly one tag -/
+def siteOK (s : RawSite) : Bool :=
+  s.kind == .html &&
+  match s.operands with
+  | [.lit p, d, .lit q] =>
+    operandInert d && noNl p && noNl q &&
+    ((stateAfter p).map (·.mode) == some .valueDQ) &&
+    ((tokenizeStartTag (p ++ q)).map (·.2) == some [])
+  | _ => false
+
+/-- **General site theorem**: at an acceptable site, for *every* value the dynamic operand can
+take, the emitted fragment is exactly one start tag with nothing after it, and its structure
+(tag name, attribute names, order) is the one of the constants alone. -/
+theorem c18_site_inert (s : RawSite) (hs : siteOK s = true) :
+    ∃ p d q, s.operands = [.lit p, d, .lit q] ∧
+      ∀ v, operandValue d v →
+        ∃ tag, tokenizeStartTag (p ++ v ++ q) = some (tag, []) ∧
+          eraseOut (tokenizeStartTag (p ++ v ++ q)) = eraseOut (tokenizeStartTag (p ++ q)) := by
+  unfold siteOK at hs
+  simp only [Bool.and_eq_true] at hs
+  obtain ⟨_, hs⟩ := hs
+  split at hs
+  · rename_i ops p d q heq
+    simp only [Bool.and_eq_true, beq_iff_eq] at hs
+    obtain ⟨⟨⟨⟨hd, hp⟩, hq⟩, hst⟩, hone⟩ := hs
+    refine ⟨p, d, q, heq, ?_⟩
+    intro v hv
+    have hquote : '"' ∉ v := by
+      cases d with
+      | escaped fn => obtain ⟨x, hx⟩ := hv; subst hx; exact (escWith_inert fn x).1
+      | base64Std =>
+        obtain ⟨bs, hx⟩ := hv; subst hx
+        exact fun h => (c18_base64_inert bs _ h).1 rfl
+      | lit _ => cases hv
+      | urlNormalised => cases hv
+      | unknown => cases hv
+    cases hsa : stateAfter p with
+    | none => rw [hsa] at hst; cases hst
+    | some st =>
+      rw [hsa] at hst
+      simp only [Option.map_some, Option.some.injEq] at hst
+      have key := site_structure p q v st hp hq hsa hst hquote
+      cases h0 : tokenizeStartTag (p ++ q) with
+      | none => rw [h0] at hone; cases hone
+      | some pr =>
+        rw [h0] at hone
+        simp only [Option.map_some, Option.some.injEq] at hone
+        cases h1 : tokenizeStartTag (p ++ v ++ q) with
+        | none => rw [h0, h1] at key; cases key
+        | some pr1 =>
+          have key' := key
+          rw [h0, h1] at key'
+          simp only [eraseOut, Option.map_some, Option.some.injEq, Prod.mk.injEq] at key'
+          refine ⟨pr1.1, ?_, ?_⟩
+          · have h2 : pr1.2 = [] := key'.2.trans hone
+            rw [← h2]
+          · rw [← h1, ← h0]; exact key
+  · cases hs
+
+def isLoginInputSite (s : RawSite) : Bool :=
+  match s.operands with
+  | [.lit p, .escaped _, .lit q] => p == inputPrefix && q == inputSuffix
+  | _ => false
+
+/-- **Raw sites**: every `template.HTML/JS/URL/HTMLAttr/CSS/JSStr/Srcset(...)` conversion in
+cmd/keymasterd is an acceptable site (so `c18_site_inert` applies to each: no operand is
+unescaped request data); the two page builders use exactly the field modelled by `c18_input`. -/
+theorem c18_raw_sites :
+    KM.Gen.rawHtmlSites.all siteOK = true ∧
+    (KM.Gen.rawHtmlSites.filter (fun s => s.func == "writeHTMLLoginPage".toList)).map isLoginInputSite
+      = [true] ∧
+    (KM.Gen.rawHtmlSites.filter (fun s => s.func == "writeHTML2FAAuthPage".toList)).map isLoginInputSite
+      = [true] := by
+  decide
+
+/-- **Bypass fields**: the struct fields whose type escapes html/template's auto-escaping are
+exactly the three known ones, each is only ever filled directly by one of the conversions
+above, the safe types are mentioned nowhere else, no custom template function exists, and every
+template written to a ResponseWriter is executed on the html/template set. -/
+theorem c18_bypass_fields :
+    KM.Gen.safeFields =
+      [⟨"loginPageTemplateData".toList, "LoginDestinationInput".toList, .html⟩,
+       ⟨"secondFactorAuthTemplateData".toList, "LoginDestinationInput".toList, .html⟩,
+       ⟨"newTOTPPageTemplateData".toList, "TOTPBase64Image".toList, .html⟩] ∧
+    KM.Gen.safeFieldWrites.all (·.direct) = true ∧
+    KM.Gen.safeFieldWrites.length = KM.Gen.rawHtmlSites.length ∧
+    KM.Gen.otherSafeTypeUses.length = 0 ∧
+    KM.Gen.templateFuncsCalls = 0 ∧
+    KM.Gen.htmlTemplateFieldIsHtmlTemplate = true ∧
+    (KM.Gen.execSites.filter (·.toResponse)).all (·.onHtmlTemplate) = true ∧
+    (KM.Gen.execSites.filter (·.toResponse)).length ≥ 8 := by
+  decide
+
+/-- **End to end over the table**: every raw-HTML conversion of the tree, for every value its
+operand can take, yields exactly one start tag followed by nothing. -/
+theorem c18_all_sites_single_tag :
+    ∀ s ∈ KM.Gen.rawHtmlSites, ∃ p d q, s.operands = [.lit p, d, .lit q] ∧
+      ∀ v, operandValue d v → ∃ tag, tokenizeStartTag (p ++ v ++ q) = some (tag, []) := by
+  intro s hs
+  have hok : siteOK s = true := by
+    have := c18_raw_sites.1
+    rw [List.all_eq_true] at this
+    exact this s hs
+  obtain ⟨p, d, q, ho, h⟩ := c18_site_inert s hok
+  exact ⟨p, d, q, ho, fun v hv => (h v hv).imp fun _ ht => ht.1⟩
+
+end KM.Html
